@@ -23,7 +23,8 @@ import (
 
 // attribute edge values
 var ints = []int{0, -1, 999999999, -999999999, 9999999999, 42}
-var strs = []string{"", "a", strings.Repeat("x", 50), "héllo wörld ✓", "inner  spaces here", "Z", " lead", "trail "}
+var strs = []string{"", "a", strings.Repeat("x", 50), "héllo wörld ✓", "inner  spaces here", "Z", " lead", "trail ",
+	"caf\xe9", "\xff\xfe\x80", "ab\xe2\x82"} // the last three are not valid UTF-8 (Latin-1, raw high bytes, a truncated sequence)
 var floats = []float64{0, -1.5, 1.0 / 3.0, 1e10, 123456789.1234567891, -0.0000000001}
 
 type attrs struct {
@@ -78,6 +79,20 @@ type recBounds struct {
 	I int    `shp:"ival"`
 	S string `shp:"SVal"`
 	F float64
+}
+
+// attribute names of 11 bytes, the most a DBF field name holds
+type recPointLong struct {
+	geom.Point
+	Description int
+	StationName string  `shp:"station_idx"`
+	Temperature float64 `shp:"TEMPERATURE"`
+}
+type decRecLong struct {
+	G geom.Geom
+	I int     `shp:"DESCRIPTION"`
+	S string  `shp:"Station_Idx"`
+	F float64 `shp:"temperature"`
 }
 
 // decode targets: tags in another letter case, geometry as interface
@@ -191,13 +206,15 @@ func roundTrip(kind string, recs []rec, api string) {
 		}
 	}()
 	// ---- write
-	if api == "struct" || api == "struct-string-last" {
+	if api == "struct" || api == "struct-string-last" || api == "struct-long-names" {
 		var arch interface{}
 		switch kind {
 		case "Point":
 			arch = recPoint{}
 			if api == "struct-string-last" {
 				arch = recPointSL{}
+			} else if api == "struct-long-names" {
+				arch = recPointLong{}
 			}
 		case "MultiPoint":
 			arch = recMultiPoint{}
@@ -222,6 +239,8 @@ func roundTrip(kind string, recs []rec, api string) {
 				d = recPoint{t, r.a.I, r.a.S, r.a.F}
 				if api == "struct-string-last" {
 					d = recPointSL{t, r.a.F, r.a.I, r.a.S}
+				} else if api == "struct-long-names" {
+					d = recPointLong{t, r.a.I, r.a.S, r.a.F}
 				}
 			case geom.MultiPoint:
 				d = recMultiPoint{t, r.a.I, r.a.S, r.a.F}
@@ -246,7 +265,11 @@ func roundTrip(kind string, recs []rec, api string) {
 		st := map[string]gshp.ShapeType{"Point": gshp.POINT, "MultiPoint": gshp.MULTIPOINT, "LineString": gshp.POLYLINE, "MultiLineString": gshp.POLYLINE, "Polygon": gshp.POLYGON, "Bounds": gshp.POLYGON}[kind]
 		var e *shp.Encoder
 		if p := try(func() {
-			e, err = shp.NewEncoderFromFields(fn, st, gshp.NumberField("ival", 10), gshp.StringField("sval", 50), gshp.FloatField("fval", 30, 10))
+			if api == "fields-long-names" {
+				e, err = shp.NewEncoderFromFields(fn, st, gshp.NumberField("description", 10), gshp.StringField("station_idx", 50), gshp.FloatField("temperature", 30, 10))
+			} else {
+				e, err = shp.NewEncoderFromFields(fn, st, gshp.NumberField("ival", 10), gshp.StringField("sval", 50), gshp.FloatField("fval", 30, 10))
+			}
 		}); p != "" || err != nil {
 			rep.Violation(fmt.Sprintf("fields|%s|NewEncoderFromFields-failed", kind), detail(-1, fmt.Sprint(p, err)))
 			return
@@ -284,7 +307,14 @@ func roundTrip(kind string, recs []rec, api string) {
 		var gs string
 		var gf float64
 		more := false
-		if api == "struct" || api == "struct-string-last" {
+		if api == "struct-long-names" {
+			var r decRecLong
+			if p := try(func() { more = d.DecodeRow(&r) }); p != "" {
+				rep.Violation(fmt.Sprintf("struct-long-names|%s|DecodeRow-panic", kind), detail(n, p))
+				return
+			}
+			g, gi, gs, gf = r.G, r.I, r.S, r.F
+		} else if api == "struct" || api == "struct-string-last" {
 			var r decRec
 			if p := try(func() { more = d.DecodeRow(&r) }); p != "" {
 				rep.Violation(fmt.Sprintf("struct|%s|DecodeRow-panic", kind), detail(n, p))
@@ -297,6 +327,11 @@ func roundTrip(kind string, recs []rec, api string) {
 			if p := try(func() {
 				if geomOnly {
 					g, f, more = d.DecodeRowFields()
+				} else if api == "fields-long-names" {
+					g, f, more = d.DecodeRowFields("DESCRIPTION", "station_idx", "Temperature")
+					if f != nil {
+						f = map[string]string{"IVAL": f["DESCRIPTION"], "sval": f["station_idx"], "FVal": f["Temperature"]}
+					}
 				} else {
 					g, f, more = d.DecodeRowFields("IVAL", "sval", "FVal")
 				}
@@ -361,7 +396,7 @@ func main() {
 		return
 	}
 	rep = report.New("C16", tier, "model_checking")
-	rep.Rule = "E1: for each of Point, MultiPoint, LineString, MultiLineString, Polygon, *Bounds: every shape with 1..3 parts/rings x 1..3 vertices (rings closed and unclosed, both windings by rotation of the pattern list, every fourth rotation with a repeated consecutive vertex in every part) with coordinates from 19 finite float64 patterns, as single records, ordered pairs and triples of a reduced shape list, the empty file, files of 100 records and records with parts of up to 300 vertices / 40 parts; attributes int {0,-1,+-999999999,9999999999,42}, string {empty, 1 byte, 50 bytes, UTF-8, inner spaces, leading/trailing space}, float {0,-1.5,1/3,1e10,123456789.1234567891,-1e-10}; multi-line strings also with empty parts after the first; the struct API (tags/names in different letter case between writer and reader; for points also a record type whose last field is the string), the field API, and the field API with geometry-only reads (no field names) on every other record. the struct and field APIs again with the written geometries cut from flat vertex buffers (not written to). Oracle: same number and order of records, every returned geometry and attribute map still intact after the last row, bit-identical coordinates part by part (unclosed rings closed, boxes as 5-vertex rectangles), ints equal, strings equal, floats within 1e-10. Non-trivial = files with >= 2 records or >= 2 parts."
+	rep.Rule = "E1: for each of Point, MultiPoint, LineString, MultiLineString, Polygon, *Bounds: every shape with 1..3 parts/rings x 1..3 vertices (rings closed and unclosed, both windings by rotation of the pattern list, every fourth rotation with a repeated consecutive vertex in every part) with coordinates from 19 finite float64 patterns, as single records, ordered pairs and triples of a reduced shape list, the empty file, files of 100 records and records with parts of up to 300 vertices / 40 parts; attributes int {0,-1,+-999999999,9999999999,42}, string {empty, 1 byte, 50 bytes, UTF-8, inner spaces, leading/trailing space, three byte strings that are not valid UTF-8}, float {0,-1.5,1/3,1e10,123456789.1234567891,-1e-10}; multi-line strings also with empty parts after the first; the struct API (tags/names in different letter case between writer and reader; for points also a record type whose last field is the string), the field API, both with attribute names of 11 bytes too, and the field API with geometry-only reads (no field names) on every other record. the struct and field APIs again with the written geometries cut from flat vertex buffers (not written to). Oracle: same number and order of records, every returned geometry and attribute map still intact after the last row, bit-identical coordinates part by part (unclosed rings closed, boxes as 5-vertex rectangles), ints equal, strings equal, floats within 1e-10. Non-trivial = files with >= 2 records or >= 2 parts."
 	tmpRoot = "/dev/shm"
 	if st, err := os.Stat(tmpRoot); err != nil || !st.IsDir() {
 		tmpRoot = os.TempDir()
@@ -454,7 +489,10 @@ func main() {
 			}
 			return g
 		}
-		apis := []string{"struct", "fields", "fields-mixed", "struct-flat", "fields-flat"}
+		apis := []string{"struct", "fields", "fields-mixed", "struct-flat", "fields-flat", "fields-long-names"}
+		if kind == "Point" {
+			apis = append(apis, "struct-long-names")
+		}
 		if kind == "Point" {
 			apis = append(apis, "struct-string-last")
 		}
